@@ -2,6 +2,7 @@ package udp
 
 import (
 	"context"
+	"fmt"
 	"net"
 	"sync"
 	"time"
@@ -204,6 +205,11 @@ func (a *Association) Encrypt(plaintext []byte) ([]byte, error) {
 	a.mu.RLock()
 	defer a.mu.RUnlock()
 
+	// Close clears the key; a closed association must not fall back to plaintext
+	if a.closed {
+		return nil, fmt.Errorf("association closed")
+	}
+
 	if a.SessionKey == nil {
 		return plaintext, nil
 	}
@@ -218,6 +224,10 @@ func (a *Association) Encrypt(plaintext []byte) ([]byte, error) {
 func (a *Association) Decrypt(ciphertext []byte) ([]byte, error) {
 	a.mu.RLock()
 	defer a.mu.RUnlock()
+
+	if a.closed {
+		return nil, fmt.Errorf("association closed")
+	}
 
 	if a.SessionKey == nil {
 		return ciphertext, nil
